@@ -92,7 +92,7 @@ class SDevice(Device):
     d = np.zeros(len(r))
     c = self.c3*2*np.minimum((self.charge_at(r) - self.capacity*self.damage_depth), 0)
     for i in range(0, len(c)):
-      d += c[i]*self._sustainment_matrix[i]*(self.efficiency**np.sign(r))
+      d += c[i]*self._sustainment_matrix[i]*(float(self.efficiency)**np.sign(r))
     return d
 
   def charge_at(self, r):
@@ -156,7 +156,7 @@ class SDevice(Device):
     constraints = Device.constraints.fget(self)
     reserve = self.capacity*self.reserve
     base = self.base()
-    e = self.efficiency
+    e = float(self.efficiency)
     s = self.sustainment
     sustainment_matrix = self._sustainment_matrix
     def soc(r, i):
